@@ -29,7 +29,7 @@ VALS = c09.VALS
 
 
 def shards(tier):
-    reps = 2 if tier == "quick" else 8
+    reps = 4 if tier == "quick" else 16
     return [{"cls": c.name, "rep": r} for c in JSON_ALL for r in range(reps)]
 
 
@@ -138,14 +138,20 @@ def apply_exclusions(program, excl, acc):
 
 
 def run_shard(spec, seed, tier, active):
+    conc.MAX_SCHEDULES[0] = 2500 if tier == "quick" else 20000
     ci = CLASSES[spec["cls"]]
     acc = Acc()
-    n = 2 if tier == "quick" else 20
+    n = 2 if tier == "quick" else 10
     excl = excl_of(active)
+
+    first = [True]
 
     def one(data):
         draw = data.draw
         program = draw_program(draw, ci)
+        if first[0]:
+            first[0] = False
+            return      # Hypothesis always starts with the minimal example: spend the budget elsewhere
         program = apply_exclusions(program, excl, acc)
         extra = []
         T = len(program["threads"])
